@@ -1,2 +1,24 @@
+(* C16 — At most one publisher per path; replaced publishers are cut off.
+   Model: Model/PathSM.v (the path event loop as a step function). Only statements here. *)
 From Coq Require Import List ZArith.
-Require Import MTX.Model.PathSM.
+Require Import MTX.Lib.Trace MTX.Model.PathSM MTX.Proofs.PathSM MTX.Proofs.PathSM_Thms.
+Import ListNotations.
+Local Open Scope Z_scope.
+
+(* after every history: a static-source path never has a publisher; on a publisher path a stream exists
+   iff a (single: `option`) publisher is attached *)
+Theorem C16_one_source : forall cf ops,
+  conf_ok cf = true ->
+  let s := final step (init_state cf) ops in
+  (c_static cf = true -> s_source s = None) /\
+  (c_static cf = false -> (s_source s = None <-> s_stream s = None)).
+Proof. exact (c16_one_source true). Qed.
+Print Assumptions C16_one_source.
+
+(* overridePublisher = false: a second publisher is answered "already publishing" and nothing changes *)
+Theorem C16_reject_when_busy : forall s q p old,
+  s_closed s = false -> c_static (s_conf s) = false -> c_override (s_conf s) = false ->
+  s_source s = Some old ->
+  step s (AddPublisher q p) = (s, [EAnswer q (AErr E_BUSY)]).
+Proof. exact (c16_reject_when_busy true). Qed.
+Print Assumptions C16_reject_when_busy.
